@@ -378,6 +378,9 @@ def _e_dyad_form(a, b, backend):
     """
     if bknp.isarray(a) and bknp.isarray(b):
         return bknp.asarray([backend.vec_fn2(x, y, lambda x, y: _e_dyad_form(x, y, backend)) for x,y in zip(a,b)])
+    if bknp.isarray(a):
+        # a numeric array arrives whole: each member is a template for the string
+        return backend.kg_asarray([_e_dyad_form(x, b, backend) for x in a])
     return __e_dyad_form(a, b, backend)
 
 def eval_dyad_form(a, b, backend):
